@@ -1,6 +1,6 @@
 """C12 — count windows: CountWindowManager::{update_slot, process}, Slot::new, WindowResult::new,
 StreamElement::timestamp extracted from /repo and verified against the sliding-group contract."""
-import os, sys
+import os, re, sys
 sys.path.insert(0, os.path.dirname(os.path.dirname(__file__)))
 import std_specs as S
 
@@ -355,7 +355,7 @@ def build(x):
                     lemma_slots(self.size as int, self.slide as int);
                 }
                 ''')
-    pr.insert_before('let k = self.ws.front()', r'''let ghost mid = *self;
+    pr.insert_before(re.compile(r'let k = '), r'''let ghost mid = *self;
                 proof {
                     lemma_slots(self.size as int, self.slide as int);
                     let m = n_slots(self.size as int, self.slide as int);
